@@ -15,7 +15,9 @@ P("C24",
              "exactly for the addresses >= offset that converter i accepts IF AND ONLY IF n = 1 or offset is a multiple of s*n "
              "(c24_mapper_agrees, c24_mapper_agrees_iff), names the owner rotated by offset/s when offset is a multiple of s "
              "(c24_mapper_rotation), with vm_compute witnesses c24_mapper_agrees_refuted, c24_round_overflow_refuted (s*n wraps) "
-             "and the pre-fix regression c24_monotone_old_refuted. c24_model_agreement_implies_property links Exec.holds_on to the model.",
+             "and the pre-fix regression c24_monotone_old_refuted; c24_banked_find / c24_select_bank_in_range cover the banked mapper and the "
+             "bank selector. c24_model_agreement_implies_property links Exec.holds_on (converter, mapper, banked mapper and bank-dispatch "
+             "clauses on the observed outputs) to the model.",
   level_note="Trusted: Coq kernel + vm_compute; the Go harness that calls mem.InterleavingConverter / mem.ConvertAddress / "
              "InterleavedAddressPortMapper.Find / BankedAddressPortMapper.Find and, for the unexported selectBank/bankSelectionAddress, "
              "builds a real simplebankedmemory component, delivers one read request and reads the chosen bank from the State JSON; "
